@@ -175,3 +175,67 @@ def ap_validate_doscmint():
                   C("reward_fits", "dosc_reward_fits(*this)", note="C09 envelope: inflated reward < 2^128")],
         ensures=[C("c18", "res is Ok ==> doscmint_ok(*this, relevant_coins@, *tx, res->Ok_0)", "C18", "C01"),
                  C("err", "res is Err ==> res->Err_0 is InvalidMelPoW || res->Err_0 is MalformedTx || res->Err_0 is NonexistentCoin", "C18", char=True)])
+
+# ---- containers at the abstract level
+def smt_insert():
+    return dict(ensures=[C("insert", "final(self)@ == old(self)@.insert(key, val)", "C07")])
+def smt_root_hash():
+    return dict(ensures=[C("root", "res == spec_root_smt(self@)", "C07")])
+def cm_root_hash_abs():
+    return dict(ensures=[C("root", "res == spec_root_coins(self@)", "C07")])
+def st_txroot():
+    return dict(ensures=[C("root", "res == spec_root_txs(self.transactions@, spec_tip908(*self))", "C07")])
+def ss_pre_tip911():
+    return dict(ensures=[C("root", "HashVal(novasmt::root_of(res@)) == spec_root_stakes(self@)", "C07", "C13")])
+def st_header_full():
+    return dict(requires=[C("chain", "chain_ok(self.0)")], ensures=[C("is", "res == spec_header(self.0)", "C07", "C06")])
+def st_tip906_transition():
+    return dict(requires=[C("wf", "old(next_state).coins.wf()"), C("fresh", "old(next_state).coins@.counts == IMap::<Address, nat>::empty()")],
+                ensures=[C("counts", "final(next_state).coins.wf() && final(next_state).coins@.coins == old(next_state).coins@.coins && counts_ok(final(next_state).coins@)", "C20"),
+                         C("frame", "same_but_coins(*final(next_state), *old(next_state))", "C20")])
+
+def mm_preseal():
+    return dict(requires=[C("inv", "state_inv(state)")],
+                ensures=[C("det", "res == spec_preseal(state)", det=True),
+                         C("frame", "pool_phase_frame(state, res) && res.fee_pool == state.fee_pool", "C15", "C17", "C05"),
+                         C("inv", "state_inv(res)", "C20"),
+                         C("builtins", "spec_builtin_pools(res)", "C16")])
+def st_tip909():
+    return dict(requires=[C("pools", "old(self).pools@.contains_key(pk_mel_sym()) && old(self).pools@.contains_key(pk_erg_sym())")],
+                ensures=[C("det", "*final(self) == spec_tip909(*old(self))", det=True),
+                         C("frame", "pool_phase_frame(*old(self), *final(self)) && final(self).coins == old(self).coins", "C01", "C17"),
+                         C("builtins", "forall|k: PoolKey| old(self).pools@.contains_key(k) ==> #[trigger] final(self).pools@.contains_key(k)", "C16")])
+def smt_val_iter():
+    return dict(ensures=[C("all", "res@.len() == self@.dom().len()", "C16")])
+def st_seal_full():
+    return dict(requires=[C("inv", "state_inv(self)"),
+                          C("fits", "self.tips.0 <= u128::MAX - 0x1_0000_0000_0000_0000_0000_0000_0000u128", note="C09 envelope: pending tips below 2^128 - 2^112")],
+                ensures=[C("det", "res.0 == spec_seal(self, action)", det=True),
+                         C("rel", "seal_rel(self, action, res.0) && res.1 == action", "C06", "C05", "C17"),
+                         C("noaction", "action is None ==> res.0.fee_multiplier == self.fee_multiplier && res.0.tips == self.tips", "C17", "C05"),
+                         C("frame", "res.0.network == self.network && res.0.height == self.height && res.0.history == self.history && res.0.transactions == self.transactions && res.0.stakes == self.stakes && res.0.dosc_speed == self.dosc_speed", "C07", "C06"),
+                         C("inv", "res.0.coins.wf() && spec_builtin_pools(res.0)", "C16", "C20")])
+
+def st_next_unsealed():
+    return dict(requires=[C("chain", "chain_ok(self.0) && self.0.height.0 < u64::MAX"), C("wf", "state_inv(self.0)")],
+                ensures=[C("det", "res == spec_next(*self)", det=True),
+                         C("next", "next_rel(self.0, res)", "C07", "C13"),
+                         C("chain", "chain_ok(res)", "C07"),
+                         C("inv", "state_inv(res)", "C20")])
+def st_apply_tx_batch():
+    return dict(requires=[C("pre", "batch_pre(*old(self), txx@)")],
+                ensures=[C("noop", "res is Err ==> *final(self) == *old(self)", "C02"),
+                         C("errkind", "res is Err ==> !(res->Err_0 is WrongHeader)", "C06", char=True),
+                         C("ok", "res is Ok ==> batch_result(*old(self), txx@, *final(self))", "C02", "C06")])
+
+def ts_iter():
+    return dict(ensures=[C("enum", "exists|ks: Seq<TxHash>| is_enum(self@, ks) && res@.len() == ks.len() && (forall|i: int| 0 <= i < ks.len() ==> *(#[trigger] res@[i]) == self@[ks[i]])", "C07")])
+def ap_batch_impl():
+    return dict(requires=[C("pre", "batch_pre(*this, txx@)")],
+                ensures=[C("ok", "res is Ok ==> batch_result(*this, txx@, res->Ok_0)", "C02", "C06"),
+                         C("errkind", "res is Err ==> !(res->Err_0 is WrongHeader)", "C06", char=True)])
+
+def cm_new_abs():
+    return dict(ensures=[C("root", "spec_root_coins(res@) == HashVal(novasmt::root_of(inner@)) && res.wf()", "C07", "C08")])
+def smt_new():
+    return dict(ensures=[C("root", "spec_root_smt(res@) == HashVal(novasmt::root_of(tree@))", "C07", "C08")])
